@@ -255,7 +255,7 @@ pub fn check() -> PropertyCheck {
             Box::new(Pbt {
                 name: "differential",
                 quick: 800_000,
-                thorough: 20_000_000,
+                thorough: 60_000_000,
                 strat: sum_strat,
                 test: sum_test,
                 max_shrink: 5000,
